@@ -634,6 +634,47 @@ func c09Enumerate(sh *evidence.Shard) {
 		}
 	}
 
+	// Part 7: port ranges at the ends of the port space. One constrained rule in front of a
+	// catch-all, every protoPort below x every query port below x both protocols, first lookup and
+	// cached lookup. (Added after the independently seeded change C09-8: a half-open range whose
+	// end wrapped to 0 at 65535.)
+	{
+		p7 := sh.Part("port-boundaries", "enum")
+		pps := []string{"tcp/1", "tcp/2", "*/1-2", "tcp/65535", "udp/65535", "*/65534-65535", "tcp/1024-65535", "*/1-65535", "udp/65534", "tcp/32767-32768", "*/255-256", "tcp/65535-65535"}
+		ports := []int{1, 2, 3, 255, 256, 257, 1023, 1024, 32767, 32768, 32769, 65533, 65534, 65535}
+		p7.Alphabet = map[string]any{"rules": "A(all, <protoPort>); B(all)", "protoPort": pps, "query_port": ports, "proto": []string{"tcp", "udp"}, "lookups": "fresh, then the same again from the cache"}
+		var cidx int64
+		for _, pp := range pps {
+			cidx++
+			if !env.Mine(cidx) {
+				continue
+			}
+			rules := []c09Rule{{Ob: "A", Addr: "all", PP: pp}, {Ob: "B", Addr: "all"}}
+			ref, rerr := c09RefCompileAll(rules)
+			impl, err := c09Compile(rules, 64)
+			if err != nil || rerr != nil {
+				c.violate(p7, fmt.Sprintf("port range %q: implementation says %v, reference says %v", pp, err, rerr), &c09Replay{Kind: "fresh", Rules: rules, CacheSize: 64, Want: "compiles", Got: "error"})
+				continue
+			}
+			bad := false
+			for round := 0; round < 2; round++ {
+				for _, port := range ports {
+					for _, proto := range []int{c09ProtoTCP, c09ProtoUDP} {
+						q := c09Query{Name: "a.com", Proto: proto, Port: port}
+						got := c09Ask(impl, q)
+						want := c09WantAns(rules, c09RefEval(ref, q))
+						p7.Evaluations++
+						if got != want && !bad {
+							bad = true
+							c.violate(p7, fmt.Sprintf("port %d against %q is decided differently from the reference", port, pp), &c09Replay{Kind: "fresh", Rules: rules, CacheSize: 64, Query: q, Want: want.String(), Got: got.String()})
+						}
+					}
+				}
+			}
+			p7.Class(pp, bad)
+		}
+	}
+
 	// Part 4 (thorough): fresh lookups, lists of length 3
 	if th {
 		p4 := sh.Part("fresh-len3", "enum")
@@ -653,7 +694,7 @@ func c09Enumerate(sh *evidence.Shard) {
 
 func c09ReplayOne(part string, raw json.RawMessage) (bool, bool, string) {
 	switch part {
-	case "fresh-len012", "fresh-len3", "cache-bfs", "prod-cache", "wildcard-grid", "name-characters":
+	case "fresh-len012", "fresh-len3", "cache-bfs", "prod-cache", "wildcard-grid", "name-characters", "port-boundaries":
 	default:
 		return false, false, ""
 	}
